@@ -1,8 +1,10 @@
 (* Channel "ess": ExactSumSweep (C16).  Oracle: the proved brute-force specification /
    checker (Algo/EssSpec.v: check_ess_dm and its parts) applied to what the implementation
    returned; schedule independence across thread pools.  Correspondence: replay of the
-   logged step sequence on the abstract machine (Algo/Ess.v; directed runs with SCC steps:
-   Algo/EssScc.v, with the components of the extracted model of sccs::tarjan). *)
+   OBSERVED step sequence (visits with their start vertices, SCC steps with their pivots,
+   reported by the guarded call-out webgraph_algo::verif_hooks::ESS_STEP) on the abstract
+   machine (Algo/Ess.v; directed runs with SCC steps: Algo/EssScc.v, with the components of
+   the extracted model of sccs::tarjan). *)
 open Model
 open Model.EssSpecM
 open Model.EssM
@@ -133,32 +135,59 @@ let run (args : (string * string) list) : string =
      | Some (s0, rv0) ->
        add "sched" (if s0 = signature then "ok" else "FAIL(differs-from-first-pool)");
        add "schedrv" (if rv0 = rv then "ok" else "FAIL(" ^ rv0 ^ "/" ^ rv ^ ")"));
-    (* correspondence: replay of the logged steps on the abstract machine; every reported
-       value and iteration counter must agree.  Visits are replayed for both variants; the
-       SCC refinement step ("A") is replayed with the pivots of the model of find_best_pivot:
-       symmetric branch on the machine of Algo/Ess.v (aspect replaya), directed branch
+    (* correspondence: replay of the OBSERVED steps on the abstract machine; every reported
+       value and iteration counter must agree.  The steps come from a guarded call-out of the
+       code (tokens F<v> / B<v>: visit from v; A:<p0>.<p1>...: SCC refinement step with the
+       pivot array, indexed by component), not from log messages: direction and start vertex
+       of every visit and the pivots of every SCC step are taken as they are, the machine's
+       theorems hold for any legal ones.  Legality is checked here with the boolean tests
+       proved equivalent to the hypotheses of the theorems (aspects vislegal, pivlegal).
+       Symmetric branch on the machine of Algo/Ess.v (aspect replaya; its pivots are indexed
+       by node: the pivot of a node is the observed pivot that reaches it), directed branch
        (component DAG of scc_graph.rs, propagation loops, per-node refinement) on the machine
-       of Algo/EssScc.v (aspect replayd) *)
+       of Algo/EssScc.v (aspect replayd).  The model only decides where the initial SumSweep
+       heuristic ends (split_heur: its iterations are skipped when nothing is incomplete),
+       which matters for the iteration counters alone. *)
     let steps = split_on ',' (get args "steps") in
-    let has_a = List.mem "A" steps in
+    let is_a t = t <> "" && t.[0] = 'A' in
+    let has_a = List.exists is_a steps in
     if steps <> [] then begin
       let n = List.length s.g in
+      let nn = nat_of_int n in
       let order = List.init n nat_of_int in
-      let op_of t =
-        let v = nat_of_int (int_of_string (String.sub t 2 (String.length t - 2))) in
-        if t.[0] = 'F' then OFwd (v, order) else OBwd (v, order) in
-      let heur = List.map op_of (List.filter (fun t -> t <> "A" && t.[1] = 'i') steps) in
-      let loop = List.map (fun t -> if t = "A" then LA order else LO (op_of t))
-          (List.filter (fun t -> t = "A" || t.[1] <> 'i') steps) in
+      let directed_a = has_a && not sym in
+      let tot = get args "tot" = "1" in
+      let num t k = int_of_string (String.sub t k (String.length t - k)) in
+      let pivots_of t =
+        if String.length t <= 2 then []
+        else List.map (fun x -> nat_of_int (int_of_string x)) (String.split_on_char '.' (String.sub t 2 (String.length t - 2))) in
+      let vis_ok = ref true and piv_ok = ref true in
+      let ops = List.map (fun t ->
+          if is_a t then begin
+            let pv = pivots_of t in
+            if sym then begin
+              let byn = pivots_by_node s.dm nn pv in
+              if not (one_pivot_each s.dm nn pv && legal_pivots_symb s.dm nn byn) then piv_ok := false;
+              OAll (byn, order)
+            end else begin
+              let d = sdata_for s in
+              if not (legal_pivotsb nn d.sd_comp d.sd_k pv) then piv_ok := false;
+              OAll (pv, order)
+            end
+          end else begin
+            let v = num t 1 in
+            if v >= n || (t.[0] <> 'F' && t.[0] <> 'B') then vis_ok := false;
+            if t.[0] = 'F' then OFwd (nat_of_int v, order) else OBwd (nat_of_int v, order)
+          end) steps in
+      add "vislegal" (ok !vis_ok);
+      if has_a then add "pivlegal" (ok !piv_ok);
       let cmp_opt k (c : nat option) = match get_opt args k with
         | None -> true
         | Some v -> (match c with Some x -> int_of_nat x = int_of_string v | None -> false) in
-      let tot = get args "tot" = "1" in
-      let directed_a = has_a && not sym in
       let one radial =
         let (okf, (c, mo)) =
-          if directed_a then run_logged_dir tot s.dm (nat_of_int n) (sdata_for s) radial heur loop l
-          else run_logged_dm sym tot s.dm (nat_of_int n) radial heur loop l in
+          if directed_a then run_observed_dir s.dm nn (sdata_for s) radial ops l
+          else run_observed_dm sym s.dm nn radial ops l in
         let vals =
           okf
           && (not (wants_eccf l) || mo.o_eccf = eccf)
@@ -169,7 +198,7 @@ let run (args : (string * string) list) : string =
         (vals, (not (wants_rad l)) || mo.o_rv = o.o_rv) in
       let rs = List.map one radials in
       add (if directed_a then "replayd" else if has_a then "replaya" else "replay") (ok (List.exists fst rs));
-      if directed_a then add "i_dsteps" (string_of_int (int_of_nat (count_la loop)));
+      if directed_a then add "i_dsteps" (string_of_int (List.length (List.filter is_a steps)));
       (* the radial vertex: the per-node loop of the directed SCC step is a parallel iteration
          whose only shared state is (radius, vertex) under a lock with a strict comparison, so
          the vertex depends on the schedule; the model is run with the order 0..n-1, which is
@@ -179,7 +208,26 @@ let run (args : (string * string) list) : string =
         let rvok = List.exists (fun (a, b) -> a && b) rs in
         if directed_a && get_int args "pool" > 1 then add "i_rvsched" (if rvok then "same" else "differs")
         else add "replayrv" (ok rvok)
-      end
+      end;
+      (* information only: do the observed pivots coincide with those of the model of
+         find_best_pivot (best_pivots / best_pivots_dir, which fix one tie-break)?  The state
+         before an SCC step does not depend on the radial set (it only drives the radius) *)
+      if has_a && !vis_ok then begin
+        let radial = match radials with r :: _ -> r | [] -> [] in
+        let observed = List.filter_map (fun o -> match o with OAll (pv, _) -> Some pv | _ -> None) ops in
+        let model =
+          if sym then model_pivots true tot s.dm nn radial ops [] (init_st nn true)
+          else model_pivots_dir tot s.dm nn (sdata_for s) radial ops [] (init_st nn false) in
+        add "i_pivmatch" (if observed = model then "same" else "differs")
+      end;
+      (* information only: the steps derived from the progress-logger messages (the former
+         source of the replay) name the same visits and SCC steps *)
+      (match get_opt args "logsteps" with
+       | None -> ()
+       | Some ls ->
+         let strip_log t = if is_a t then "A" else if String.length t >= 2 then String.make 1 t.[0] ^ String.sub t 2 (String.length t - 2) else t in
+         let strip_obs t = if is_a t then "A" else t in
+         add "i_logmatch" (if List.map strip_log (split_on ',' ls) = List.map strip_obs steps then "same" else "differs"))
     end;
     Buffer.contents res
   end
